@@ -108,6 +108,13 @@ class MigWorld(World):
         self.close_legacy(dirty=s.get("dirty", False))
         self.phase = "new"
         out = self._call(self.open_new)
+        if out["exc"] is None and s.get("idle_exit"):
+            # the process that migrated is stopped before it served a single call (no read, hence no flush); the
+            # library has no shutdown call, so this is an ordinary exit.  The next process must find everything.
+            self.probes["first_process_exits_before_any_call"] += 1
+            self._release()
+            end_of_process()
+            out = self._call(self.open_new)
         if out["exc"] is None:
             self.new_dump = self.dump()
         return out
@@ -227,7 +234,7 @@ class C14(Check):
         "under the same bucket ids; then first start and a restart of the default SqliteStorage in the same fake home; "
         "non-trivial = legacy store held >=1 bucket with >=1 event; distinct = (profile, op-kind sequence, events per bucket)"
     )
-    expected_probes = ["legacy_events_migrated", "legacy_bucket_with_data", "legacy_bucket_name_omitted", "distractor_profile_present", "legacy_exit_dirty", "id_holes", "profile_testing", "profile_normal", "unicode_bucket_id", "restart_new_checked", "legacy_bucket_over_1000_events", "legacy_negative_duration", "new_store_exit_without_shutdown", "bucket_ids_differ_in_case", "both_profiles_migrated_in_one_process", "legacy_unpaired_surrogate", "migrated_bucket_deleted_then_restart", "legacy_backup_copy_beside"]
+    expected_probes = ["legacy_events_migrated", "legacy_bucket_with_data", "legacy_bucket_name_omitted", "distractor_profile_present", "legacy_exit_dirty", "id_holes", "profile_testing", "profile_normal", "unicode_bucket_id", "restart_new_checked", "legacy_bucket_over_1000_events", "legacy_negative_duration", "new_store_exit_without_shutdown", "bucket_ids_differ_in_case", "both_profiles_migrated_in_one_process", "legacy_unpaired_surrogate", "migrated_bucket_deleted_then_restart", "legacy_backup_copy_beside", "first_process_exits_before_any_call"]
     assumptions = ["the data directory is found through XDG_DATA_HOME (platformdirs); the harness asserts every database path lies inside the run's scratch home"]
     real_components = ["PeeweeStorage (legacy store at default path)", "SqliteStorage (new store at default path)", "aw_datastore.migration", "aw_core.dirs / platformdirs", "SQLite engine", "peewee ORM"]
     stub_components = ["home directory (XDG_* in scratch)", "loggers", "the legacy client (generated history)"]
@@ -288,6 +295,8 @@ class C14(Check):
             b = sr2.choice(buckets)
             steps.append({"op": "insert1", "b": b, "ev": {"ts": gen.lat_ts(sr2, lat), "off": 0, "dur": 1_000_000, "data": {"title": "cut here \ud83d", "app": "x"}}})
         steps.append({"op": "first_start", "dirty": r.random() < 0.3})
+        if rs["idle"].random() < 0.25:
+            steps[-1]["idle_exit"] = True
         # the library has no shutdown call: a process that migrated, served reads and exited without ceremony
         # is the ordinary lifecycle, so half of the restarts abandon the connection instead of flushing it
         if r.random() < 0.3:
